@@ -18,7 +18,8 @@ import (
 func init() {
 	register(&RuleSet{
 		ID: "C04",
-		Explanation: "R10 a loop of package ovmf over a count decoded from the image is bounded by that count itself, never by a clamped copy (φ with a constant, min). " +
+		Explanation: "R11 a loop of sev / ovmf that walks a slice in constant steps of k does not leave on `i+k < len` (which skips the last chunk) unless the rest is handled behind the loop. " +
+			"R10 a loop of package ovmf over a count decoded from the image is bounded by that count itself, never by a clamped copy (φ with a constant, min). " +
 			"R1 order (ESP on sev.LaunchDigest): measurement events occur in the order ROM (Update with the constant PageTypeNormal) → zero-content metadata pages → VMSA pages (Update with PageTypeVmsa); a nil return needs the ROM event; the ROM event's address operand is RomTop − len(image) and the VMSA events' address is ProductHighAddress of the options' product. " +
 			"R2 kind table: the mapping from OVMF section kind to SNP page type covers exactly the section-kind constants declared in ovmf/abi, maps them to {unmeasured, secret, cpuid, zero} respectively (constants checked by value) and rejects every other kind. " +
 			"R3 purity: no store / copy in the call closure of LaunchDigest and UnsignedSnp writes through the image parameter. " +
@@ -38,6 +39,19 @@ func init() {
 
 func runC04(c *Ctx) {
 	defer c04DeclaredCounts(c)
+	defer func() {
+		// R11: every byte of a measured page is looked at: loops that walk a slice in constant steps cover its last chunk
+		var fns []*ssa.Function
+		for _, f := range c.P.RepoFunctions() {
+			switch load.RelPkg(f) {
+			case "sev", "ovmf", "ovmf/abi":
+				if !c.isTestFunc(f) {
+					fns = append(fns, f)
+				}
+			}
+		}
+		c.S.Floor("R11", "constant-step loops over a slice length in sev / ovmf", 1, c.chunkScanRule("R11", fns))
+	}()
 	// R8 = C06.R5/R7/R8 on the SEV side: each per-count digest is computed with that count and the requested product.
 	c.borrow("R8/C06.", runC06, func(rule, construct string) bool {
 		return (rule == "R8" || rule == "R7" || rule == "R5") && strings.Contains(construct, "sev.")
